@@ -55,6 +55,22 @@ def run(tier, argv):
         if str(e.get("msg", "")).startswith("panic"):
             bad.append({"what": "panic", "dialect": "schema (notation automaton)", "text": e["text"], "ok": False, "len": -1, "msg": e["msg"]})
     lines = lines + [dict(e, dialect="schema-notation") for e in lines2]
+    # the enum dialect the same way (EnumText)
+    gpe, ge = jsongraph.export_enum_graph(work, rep, "l")
+    tr3 = work.path("elen.ndjson")
+    p = vlib.run_harness(hbin, ["c14slen", "-graph", gpe, "-dialect", "enum", "-out", tr3], timeout=3000)
+    if p.returncode != 0:
+        raise vlib.Infra("c14slen (enum) failed: " + p.stderr.decode()[-2000:])
+    lines3 = list(vlib.read_ndjson(tr3))
+    r = vlib.tlc(work, "TraceEnumLen", "TraceEnumLen.cfg", consts={"TraceFile": '"%s"' % tr3}, timeout=6000, heap="16g")
+    rep.add_tlc(r, "TraceEnumLen over %d Enum.Len() calls" % len(lines3))
+    if r.distinct != len(lines3) + 1:
+        raise vlib.Infra("trace not consumed: %d states for %d events" % (r.distinct, len(lines3)))
+    for l in r.tagged("@@MISMATCH"):
+        m = json.loads(l)
+        e = lines3[m["line"] - 1]
+        bad.append({"what": m["what"], "dialect": "enum (notation automaton)", "text": e["text"], "ok": e["ok"], "len": e["len"], "msg": e.get("msg")})
+    lines = lines + [dict(e, dialect="enum-notation") for e in lines3]
     by = {}
     for e in lines:
         by[e["dialect"]] = by.get(e["dialect"], 0) + 1
